@@ -273,7 +273,26 @@ template <class V> void check_chebyshev(Chk &c, const Sys<V> &S, Rng &r, unsigne
             long double lo = hi * (long double)lower; hi *= (long double)higher; long double dref = (hi + lo) / 2, cref = (hi - lo) / 2, tol = 8 * (S.maxrow + 8) * b * b * U64 * hi;
             c.check(fabsl(dd - dref) <= tol && fabsl(cc - cref) <= tol, "chebyshev:bounds", "ellipse centre / semi-axis differ from the Gershgorin bounds [hi*lower, hi*higher]", J().n("d", (double)dd).n("d_ref", (double)dref).n("c", (double)cc).n("c_ref", (double)cref).bl("scale", scale));
             cc = cref; dd = dref;
-        } else { c.check(std::isfinite((double)cc) && std::isfinite((double)dd) && dd > 0 && cc >= 0 && fabsl((dd - cc) - (long double)lower / (long double)higher * (dd + cc)) <= 1e-6L * dd, "chebyshev:bounds-power", "power-method bounds are not of the form [hi*lower, hi*higher]", J().n("d", (double)dd).n("c", (double)cc)); }
+        } else {
+            // Power method: the documented rule is hi = spectral_radius<scale>(A, power_iters) * higher, lo = that estimate * lower.
+            // The harness calls the documented estimator itself.  It is seeded per thread and reduced under `omp critical`, so
+            // the comparison is made in single-threaded processes only (there the two calls are the same arithmetic: 4u).
+            c.check(std::isfinite((double)cc) && std::isfinite((double)dd) && dd > 0 && cc >= 0, "chebyshev:bounds-power:non-finite", "ellipse centre / semi-axis are not finite positive numbers", J().n("d", (double)dd).n("c", (double)cc));
+            double est = scale ? backend::spectral_radius<true>(*S.Am, power_iters) : backend::spectral_radius<false>(*S.Am, power_iters);
+            if (omp_get_max_threads() == 1) {
+                double lo = est * lower, hi = est * higher, dref = 0.5 * (hi + lo), cref = 0.5 * (hi - lo); long double tol = 4 * U64 * std::fabs(hi);
+                c.check(fabsl(dd - dref) <= tol && fabsl(cc - cref) <= tol, scale ? "chebyshev:bounds-power:scaled" : "chebyshev:bounds-power:unscaled",
+                        "the ellipse is not [est*lower, est*higher] for est = spectral_radius<scale>(A, power_iters), the estimator the parameter selects",
+                        J().n("d", (double)dd).n("d_ref", dref).n("c", (double)cc).n("c_ref", cref).n("power_iters", power_iters).bl("scale", scale));
+                vf::obs_sum(scale ? "cheb_power_scaled_compared" : "cheb_power_unscaled_compared");
+            }
+            // any power-method estimate sum_i |(B v)_i v_i| with |v| = 1 is bounded by sigma_max(B) (Cauchy-Schwarz), B = A or D^-1 A
+            Eigen::MatrixXcd Bd(S.N, S.N); for (size_t i2 = 0; i2 < S.N; ++i2) for (size_t j2 = 0; j2 < S.N; ++j2) Bd(i2, j2) = std::complex<double>((double)As(i2, j2).real(), (double)As(i2, j2).imag());
+            Eigen::JacobiSVD<Eigen::MatrixXcd> svd(Bd); double smax = svd.singularValues()[0];
+            c.check_le(dd + cc, (1 + (S.N + 8) * 4 * U64 + 1e-12L) * (long double)higher * smax, scale ? "chebyshev:bounds-power:above-sigma-max:scaled" : "chebyshev:bounds-power:above-sigma-max:unscaled",
+                       "upper end of the ellipse exceeds higher * sigma_max although a power-method estimate was requested", J().n("power_iters", power_iters).bl("scale", scale).n("sigma_max", smax));
+            c.check(fabsl((dd - cc) - (long double)lower / (long double)higher * (dd + cc)) <= 1e-6L * dd, "chebyshev:bounds-power", "power-method bounds are not of the form [hi*lower, hi*higher]", J().n("d", (double)dd).n("c", (double)cc));
+        }
         if (!(cc > 0)) return;    // degenerate ellipse (lower == higher): the three-term form divides by c
         LZ I = LZ::Identity(S.N, S.N); LZ Z = (ZL(dd) * I - As) / ZL(cc); LZ T0 = I, T1 = Z; long double t0 = 1, t1 = dd / cc, growth = 1;
         for (unsigned k = 2; k <= degree; ++k) { LZ T2 = ZL(2) * Z * T1 - T0; T0 = T1; T1 = T2; long double t2 = 2 * (dd / cc) * t1 - t0; t0 = t1; t1 = t2; growth = std::max(growth, norminf(T1) / fabsl(t1)); }
@@ -384,7 +403,10 @@ template <class V> void run_all_relaxations(Chk &c, const Sys<V> &S, Rng &r, boo
     check_gauss_seidel<V>(c, S, r, true); check_gauss_seidel<V>(c, S, r, false);
     check_chebyshev<V>(c, S, r, thorough_params ? (unsigned)r.range(1, 7) : 5, false, 0, thorough_params ? r.pick(std::vector<float>{1.0f, 1.1f}) : 1.0f, thorough_params ? r.pick(std::vector<float>{1.0f / 30, 0.1f, 0.3f}) : 1.0f / 30);
     check_chebyshev<V>(c, S, r, thorough_params ? (unsigned)r.range(1, 6) : 3, true, 0, 1.0f, 1.0f / 30);
-    check_chebyshev<V>(c, S, r, 4, r.coin(), (int)r.range(1, 8), 1.0f, 1.0f / 30);
+    // power-method bounds: both scalings for every system, power_iters cycling through {1, 2, 5, 10}
+    static const int PI[4] = {1, 2, 5, 10}; int pi0 = (int)r.range(0, 3);
+    check_chebyshev<V>(c, S, r, thorough_params ? (unsigned)r.range(1, 5) : 4, true, PI[pi0], thorough_params ? r.pick(std::vector<float>{1.0f, 1.1f}) : 1.0f, thorough_params ? r.pick(std::vector<float>{1.0f / 30, 0.2f}) : 1.0f / 30);
+    check_chebyshev<V>(c, S, r, 3, false, PI[(pi0 + 1) % 4], 1.0f, 1.0f / 30);
     IluCfg c0; c0.k = 0; c0.damping = thorough_params ? r.pick(std::vector<double>{1.0, 0.8, 1.2}) : 1.0; c0.expect_exact = no_fill;
     check_ilu<V, ILU0>(c, S, r, c0);
     for (int k : {0, 1, 2}) { IluCfg ck = c0; ck.k = k; check_ilu<V, ILUK>(c, S, r, ck); if (k < 2 || S.n <= 30) check_ilu<V, ILUP>(c, S, r, ck); }
